@@ -2528,6 +2528,36 @@ Definition seq_eqb (a b : list bytes) : bool := list_eqb (list_eqb N.eqb) a b.
 """
 
 
+# calls with parameters OUTSIDE the documented domain mixed with valid ones (C18.rejected_calls): the model (Model/ScryptImpl.v, the
+# function C18_asserts / C18_total characterise) has no state, so every call is classified from its own arguments alone
+REJ_SEQ_PREAMBLE = FFI_SEQ_PREAMBLE + """Definition call_code {E : Type} (o : outcome E bytes) : N * bytes :=
+  match o with
+  | Ok b => (0, b) | Panic PAssert => (1, []) | Panic PArith => (2, []) | Panic PUnwrap => (3, [])
+  | Panic PSliceIndex => (4, []) | _ => (5, [])
+  end.
+Definition run_impl_calls (cs : list (bytes * bytes * (N * N * N * N))) : list (N * bytes) :=
+  map (fun c => let '(pw, salt, (n, r, p, l)) := c in call_code (ScryptImpl.scrypt pb1 pw salt n r p l)) cs.
+Definition calls_eqb (a b : list (N * bytes)) : bool :=
+  list_eqb (fun x y => N.eqb (fst x) (fst y) && list_eqb N.eqb (snd x) (snd y)) a b.
+(* the exported C function over one memory: a call that is not Ok ends the process (a panic cannot cross extern "C"),
+   so the outputs are those of the calls before it; the flag says whether the sequence was cut short *)
+Fixpoint ffi_seq_stop (m : ScryptFfi.mem) (cs : list (bytes * bytes * (N * N * N * N))) : list bytes * bool :=
+  match cs with
+  | [] => ([], false)
+  | c :: t =>
+      let '(pw, salt, (n, r, p, l)) := c in
+      let m1 := ScryptFfi.mem_store (ScryptFfi.mem_store m 0 pw) 4096 salt in
+      let m2 := ScryptFfi.mem_store m1 8192 (List.repeat 90 (N.to_nat l)) in
+      match ScryptFfi.ffi_scrypt pb1 m2 0 (N.of_nat (List.length pw)) 4096 (N.of_nat (List.length salt)) n r p 8192 l with
+      | Ok m3 => let '(os, st) := ffi_seq_stop m3 t in (ScryptFfi.mem_load m3 8192 l :: os, st)
+      | _ => ([], true)
+      end
+  end.
+Definition ffi_stop_eqb (cs : list (bytes * bytes * (N * N * N * N))) (outs : list bytes) (cut : bool) : bool :=
+  let '(os, st) := ffi_seq_stop (fun _ => 0) cs in seq_eqb os outs && Bool.eqb st cut.
+"""
+
+
 class C18(MiscProp):
     run_modules = MiscProp.run_modules + ('Spec/Salsa.v', 'Spec/Scrypt.v', 'Spec/Pbkdf2.v', 'Spec/ScryptConcrete.v', 'Spec/Hex.v', 'Model/ScryptImpl.v', 'Model/ScryptFfi.v')
     id = "C18"
@@ -2546,10 +2576,17 @@ class C18(MiscProp):
             "with the boundary moved, repeat one request with equal / shrinking / growing dkLen, permute or change one of N, r, p, exchange password and "
             "salt, or differ by one byte at either end; every call must return the RFC value of its own arguments (OpenSSL), and for N <= 16, r, p <= 2 "
             "the whole sequence is also evaluated through Model/ScryptFfi.v's ffi_scrypt over one memory threaded through the calls and through "
-            "Spec/Scrypt.v. thorough tier: Spec/Scrypt.v's rfc_scrypt itself evaluated by coqc at the production parameters N = 32768, r = 8, p = 1 "
+            "Spec/Scrypt.v. refused calls, then valid ones: sequences IN ONE PROCESS in which calls with parameters outside the domain (N = 0, 1, not a "
+            "power of two; r = 0; p = 0; dkLen = 0; r*p >= 2^30), made on the driver's thread (panic caught), on a fresh thread which the panic ends, or "
+            "caught on a fresh thread, precede valid calls on the same / another thread (incl. the production parameters): every valid call must return "
+            "the RFC value; the outcome of every call (value or panic class) is compared with Model/ScryptImpl.v (C18_asserts / C18_total); the same "
+            "sequences through the C ABI in a forked child with the replies handed over call by call (the refused call ends the child: the valid calls "
+            "before it, and after it should it return, must be exact; Model/ScryptFfi.v says where the sequence stops). thorough tier: Spec/Scrypt.v's rfc_scrypt itself evaluated by coqc at the production parameters N = 32768, r = 8, p = 1 "
             "(one password/salt, ~50 min, 7 GB, cached) and compared with the library and with OpenSSL. non-trivial = all; distinct = distinct requests")
     assumptions = ["OpenSSL's EVP scrypt (through Python's hashlib) is the reference RFC 7914 implementation",
-                   "parameters outside the documented domain (N not a power of two or < 2, r = 0, p = 0, dkLen = 0) are not exercised",
+                   "what a call with parameters outside the documented domain (N not a power of two or < 2, r = 0, p = 0, dkLen = 0, r*p >= 2^30) itself does is "
+                   "not demanded by the property (it is compared with the model's panic class only); such calls are made to see that the valid calls AFTER "
+                   "them are exact; parameters that pass the assertions but exceed the machine's memory are not exercised",
                    "the C ABI check sees writes within 64 bytes before / after the output buffer; stray writes elsewhere are not observable"]
     trusted_extra = ["harness/ffidrv/call.py (ctypes caller with guard zones)", "Python hashlib (OpenSSL) scrypt and PBKDF2"]
 
@@ -2560,6 +2597,7 @@ class C18(MiscProp):
         self.internals(ctx)
         self.ffi(ctx)
         self.call_sequences(ctx)
+        self.rejected_calls(ctx)
         if ctx.thorough():
             self.production_gallina(ctx)
 
@@ -2750,6 +2788,12 @@ class C18(MiscProp):
 
     def replay(self, ctx, payload):
         inp = payload.get("input", {})
+        if isinstance(inp, dict) and inp.get("ffi_rej_seq"):
+            calls = [dict(q) for q in inp["ffi_rej_seq"]]
+            rep = ffi_call([{"seq": calls, "partial": True}])[0]
+            verdicts = self.judge_ffi_rej(calls, rep)
+            return {"holds": all(v[0] for v in verdicts), "expected": payload.get("expected"), "implementation": rep,
+                    "failed": [v[1:] for v in verdicts if not v[0]]}
         if isinstance(inp, dict) and inp.get("ffi_seq"):
             calls = [dict(q) for q in inp["ffi_seq"]]
             rep = ffi_call([{"seq": calls}])[0]
@@ -2760,6 +2804,205 @@ class C18(MiscProp):
                                                                                                 q["dklen"]).hex() for q, r_ in zip(calls, reps))
             return out
         return super().replay(ctx, payload)
+
+    # ---------------------------------------------------------------- rejected calls, then valid calls, in ONE process
+    @staticmethod
+    def in_domain(n, r, p, dk):
+        """the property's domain (N a power of two > 1, r, p >= 1, r*p < 2^30, dkLen >= 1); the memory bound is the generator's business"""
+        return n > 1 and n & (n - 1) == 0 and r >= 1 and p >= 1 and r * p < (1 << 30) and dk >= 1
+
+    def gen_rejected(self, ctx):
+        """cost parameters / output length OUTSIDE the documented domain, all of which the library refuses in its parameter
+        assertions before it allocates anything (dkLen = 0: at the very end of a small computation): (kind, (n, r, p, dk))"""
+        rng = ctx.rng
+        kind = rng.choice(["n=0", "n=1", "n-not-a-power-of-two", "n-not-a-power-of-two", "r=0", "p=0", "r=p=0", "dkLen=0", "r*p>=2^30"])
+        n, r, p, dk = rng.choice([2, 4, 8, 16]), rng.choice([1, 2]), rng.choice([1, 2]), rng.choice([1, 16, 32, 33, 64])
+        if kind == "n=0":
+            n = 0
+        elif kind == "n=1":
+            n = 1
+        elif kind == "n-not-a-power-of-two":
+            n = rng.choice([3, 3, 5, 6, 7, 12, 15, 17, 24, 1000, 1023, 32767, 32769, 65535, 3 << rng.randrange(1, 30), 2 ** 31 + 1, 2 ** 32 - 1,
+                            rng.randrange(3, 2 ** 32) | 1, (1 << rng.randrange(2, 32)) - 1, (1 << rng.randrange(2, 31)) + 1])
+        elif kind == "r=0":
+            r = 0
+        elif kind == "p=0":
+            p = 0
+        elif kind == "r=p=0":
+            r = p = 0
+        elif kind == "dkLen=0":
+            dk = 0
+        else:
+            r, p = rng.choice([(32768, 32768), (1 << 30, 1), (1, 1 << 30), (65536, 65536), (2 ** 32 - 1, 2 ** 32 - 1), (1 << 20, 1 << 10), (2 ** 32 - 1, 1),
+                               (3, 1 << 29), (1 << 15, 1 << 16)])
+        assert not self.in_domain(n, r, p, dk)
+        return kind, (n, r, p, dk)
+
+    def gen_rejected_sequences(self, ctx):
+        """(family, [(where, request)]): where = main (the driver's thread, panic caught there), thr (a fresh thread which the
+        panic ends), thrc (a fresh thread, panic caught on it).  Requests outside the domain carry "rejected": kind."""
+        rng = ctx.rng
+
+        def val(prod=False, small=False):
+            if prod:
+                n, r, p, dk = 32768, 8, 1, 32
+            elif small:      # within what the Gallina model evaluates quickly
+                n, r, p, dk = rng.choice([2, 4, 8, 16]), rng.choice([1, 1, 2]), rng.choice([1, 1, 2]), rng.choice([1, 16, 31, 32, 33, 64])
+            else:
+                n, r, p, dk = rng.choice([2, 4, 8, 16, 16, 64, 1024]), rng.choice([1, 1, 2, 3]), rng.choice([1, 1, 2, 3]), rng.choice([1, 16, 31, 32, 33, 64])
+                if n > 16:
+                    r, p = rng.choice([(1, 1), (8, 1), (2, 3)])
+            return {"pw": ctx.rbytes(rng.randrange(0, 20)).hex(), "salt": ctx.rbytes(rng.randrange(0, 20)).hex(), "n": n, "r": r, "p": p, "dklen": dk,
+                    "guard": rng.choice([16, 64])}
+
+        def rej():
+            kind, (n, r, p, dk) = self.gen_rejected(ctx)
+            return {"pw": ctx.rbytes(rng.randrange(0, 12)).hex(), "salt": ctx.rbytes(rng.randrange(0, 12)).hex(), "n": n, "r": r, "p": p, "dklen": dk,
+                    "guard": 16, "rejected": kind}
+
+        seqs = []
+        for rep in range(8 if ctx.thorough() else 2):
+            sm = rep % 2 == 0
+            v1 = val(small=sm)
+            seqs.append(("same-thread", [("main", v1), ("main", rej()), ("main", dict(v1)), ("main", val(small=sm))]))
+            seqs.append(("rejected-first/valid-on-another-thread", [("main", rej()), ("thr", val(small=sm)), ("main", val(small=sm))]))
+            v1 = val(small=sm)
+            seqs.append(("rejected-call-ends-a-worker-thread", [("thr", v1), ("thr", rej()), ("main", dict(v1)), ("thr", val(small=sm))]))
+            seqs.append(("rejected-call-caught-on-a-worker-thread", [("thrc", rej()), ("main", val(small=sm)), ("thrc", val(small=sm))]))
+            seqs.append(("several-rejections", [(rng.choice(["main", "thr", "thrc"]), rej()) for _ in range(rng.choice([2, 3]))] +
+                         [(rng.choice(["main", "thr"]), val(small=sm)), (rng.choice(["main", "thr"]), val(small=sm))]))
+        seqs.append(("production-parameters-after-a-rejection", [(rng.choice(["main", "thr"]), rej()), ("main", val(prod=True))]))
+        # the documented refusal itself, fixed: "n must be larger than 1 and a power of 2"
+        seqs.append(("same-thread", [("main", {"pw": "70617373776f7264", "salt": "4e61436c", "n": 3, "r": 1, "p": 1, "dklen": 32, "guard": 16,
+                                              "rejected": "n-not-a-power-of-two"}),
+                                     ("main", {"pw": "", "salt": "", "n": 16, "r": 1, "p": 1, "dklen": 64, "guard": 16})]))
+        return seqs
+
+    @staticmethod
+    def rej_line(where, q):
+        body = "scrypt %s %s %d %d %d %d" % (q["pw"] or "-", q["salt"] or "-", q["n"], q["r"], q["p"], q["dklen"])
+        return {"main": "pc ", "thr": "thr ", "thrc": "thr pc "}[where] + body
+
+    @staticmethod
+    def rej_parse(line):
+        t = line.split()
+        t = t[t.index("scrypt") + 1:]
+        return unhex(t[0]), unhex(t[1]), int(t[2]), int(t[3]), int(t[4]), int(t[5])
+
+    PANIC_CODE = {"assert": 1, "arith": 2, "unwrap": 3, "index": 4}
+
+    def rejected_calls(self, ctx):
+        """The property quantifies over valid parameters of EVERY call, whatever the process did before: here a call outside the
+        domain (which the library documents to refuse, by a panic) comes first, on the same or on another thread, and the valid
+        calls after it must still return the RFC 7914 value.  What the rejected call itself does is not demanded by the property;
+        it is compared with Model/ScryptImpl.v (the panic classes C18_asserts / C18_total give) as a correspondence."""
+        seqs = self.gen_rejected_sequences(ctx)
+        scripts = [[self.rej_line(w, q) for (w, q) in els] for _, els in seqs]
+        with ThreadPoolExecutor(max_workers=vlib.NPROC) as ex:
+            outs = list(ex.map(lambda ls: drv(ctx.bin, ls, timeout=900), scripts))
+        have_model = coq_has("Spec/Scrypt.v", "Model/ScryptImpl.v", "Model/ScryptFfi.v", "Spec/Salsa.v", "Spec/Pbkdf2.v")
+        items, inputs, impls = [], {}, {}
+
+        def g_call(q):
+            return "(%s, %s, (%d, %d, %d, %d))" % (g_bytes(bytes.fromhex(q["pw"])), g_bytes(bytes.fromhex(q["salt"])), q["n"], q["r"], q["p"], q["dklen"])
+
+        def g_ob(r_):     # (0, value) | (1..4 = the model's panic tags PAssert, PArith, PUnwrap, PSliceIndex; 9 = another panic; 8 = no reply, [])
+            if r_.get("outcome") == "ok":
+                return "(0, %s)" % g_bytes(unhex(r_.get("out", "-")))
+            return "(%d, [])" % (self.PANIC_CODE.get(r_.get("class"), 9) if r_.get("outcome") == "panic" else 8)
+
+        def small(q):
+            return "rejected" in q and q["rejected"] != "dkLen=0" or (q["n"] <= 16 and q["r"] <= 2 and q["p"] <= 2 and q["dklen"] <= 64)
+
+        for si, ((fam, els), lines, rs) in enumerate(zip(seqs, scripts, outs)):
+            self.ran(ctx, "rejected-then-valid/library/%s" % fam)
+            obs = []
+            for i, ((w, q), r_) in enumerate(zip(els, rs)):
+                if "rejected" in q:
+                    self.count(ctx, "rejected:%s@%s->%s" % (q["rejected"], w, r_.get("outcome") + ("/" + r_["class"] if "class" in r_ else "")))
+                    obs.append(g_ob(r_))
+                    continue
+                want = ref_scrypt(bytes.fromhex(q["pw"]), bytes.fromhex(q["salt"]), q["n"], q["r"], q["p"], q["dklen"])
+                got = r_.get("out") if r_.get("outcome") == "ok" else None
+                self.check(ctx, got == want.hex(), {"driver": "libdrv", "lines": lines[:i + 1], "oracle": "scrypt_after_rejected",
+                                                    "note": "ONE driver process; 'pc' = on the driver's thread under catch_unwind, 'thr' = on a fresh thread; "
+                                                            "the line(s) with parameters outside the domain are expected to be refused"},
+                           "the last line has valid parameters: it returns the RFC 7914 value (OpenSSL) %s whatever calls were refused before it in this process"
+                           % want.hex()[:128], r_["raw"][:400])
+                obs.append(g_ob(r_))
+            if have_model:
+                # a sequence whose valid calls are small: every call; otherwise the refused calls only (the model refuses before it computes)
+                keep = [True] * len(els) if all(small(q) for _, q in els) else ["rejected" in q and small(q) for _, q in els]
+                g = "[" + "; ".join(g_call(q) for (_, q), k_ in zip(els, keep) if k_) + "]"
+                vq = [q for (_, q), k_ in zip(els, keep) if k_ and "rejected" not in q]
+                vo = [o for (_, q), o, k_ in zip(els, rs, keep) if k_ and "rejected" not in q]
+                term = "calls_eqb (run_impl_calls %s) [%s]" % (g, "; ".join(o_ for o_, k_ in zip(obs, keep) if k_))
+                if vq and all(o.get("outcome") == "ok" for o in vo):
+                    term += " && seq_eqb (run_spec_seq [%s]) [%s]" % ("; ".join(g_call(q) for q in vq), "; ".join(g_bytes(unhex(o.get("out", "-"))) for o in vo))
+                items.append((si, term, 2 * sum(q["n"] * q["r"] * q["p"] + 4 for q in vq) + 8))
+                inputs[si], impls[si] = {"driver": "libdrv", "lines": lines}, json.dumps([o["raw"][:200] for o in rs])[:900]
+        self.sample(ctx, {"gen": "rejected-then-valid", "sequences": len(seqs), "example": scripts[0], "replies": [o["raw"][:120] for o in outs[0]]})
+        # ---- the C ABI: the same sequences, each in its own forked child, replies handed over call by call.  A panic cannot cross
+        # extern "C": the refused call ends the child, so the after-effect is observable at library level only; here the calls
+        # BEFORE the refused one must have returned the RFC value, and should the refused call return, the valid ones after it too
+        fitems, finputs, fimpls = [], {}, {}
+        if os.path.exists(vlib.FFI_SO):
+            fseqs = [(fam, [dict((k, v) for k, v in q.items()) for _, q in els]) for fam, els in seqs if fam != "production-parameters-after-a-rejection"]
+            fseqs += [("valid-calls-before-the-rejected-one", [dict(q) for _, q in els if "rejected" not in q] + [dict(q) for _, q in els if "rejected" in q][:1])
+                      for fam, els in seqs[:4]]
+            frep = ffi_call([{"seq": [dict(q) for q in calls], "partial": True} for _, calls in fseqs])
+            for fi, ((fam, calls), o) in enumerate(zip(fseqs, frep)):
+                self.ran(ctx, "rejected-then-valid/ffi/%s" % fam)
+                inp = {"driver": "ffidrv/call.py", "ffi_rej_seq": calls, "note": "the calls are made in this order in ONE forked child (\"partial\": true); "
+                                                                                  "requests with \"rejected\" are outside the domain"}
+                for (ok, exp, ob) in self.judge_ffi_rej(calls, o):
+                    self.check(ctx, ok, inp, exp, ob)
+                first = min(i for i, q in enumerate(calls) if "rejected" in q)
+                self.count(ctx, "ffi-rejected-call:%s" % ("process-ended" if "crash" in o and len(o.get("seq_partial", [])) == first else
+                                                         "returned" if "seq" in o or len(o.get("seq_partial", [])) > first else "other"))
+                if have_model and all(small(q) for q in calls):
+                    part = o.get("seq") if "seq" in o else o.get("seq_partial", [])
+                    fitems.append((fi, "ffi_stop_eqb [%s] [%s] %s" % ("; ".join(g_call(q) for q in calls),
+                                                                     "; ".join(g_bytes(bytes.fromhex(r_.get("out", ""))) for r_ in part),
+                                                                     "true" if "crash" in o else "false"),
+                                   2 * sum(q["n"] * q["r"] * q["p"] + 4 for q in calls[:first]) + 8))
+                    finputs[fi], fimpls[fi] = inp, json.dumps(o)[:900]
+        if have_model:
+            res_m, log = coq_eval(ctx.pid + "r", items, preamble=REJ_SEQ_PREAMBLE)
+            self.model_results(ctx, "gallina-rejected-then-valid(ScryptImpl panic classes + RFC spec)", items, res_m, log, inputs, impls)
+            if fitems:
+                res_m, log = coq_eval(ctx.pid + "f", fitems, preamble=REJ_SEQ_PREAMBLE)
+                self.model_results(ctx, "gallina-ffi-rejected(ScryptFfi: a refused call ends the process)", fitems, res_m, log, finputs, fimpls)
+        else:
+            self.count(ctx, "skipped:gallina-rejected-then-valid(Model/ScryptImpl.v absent)")
+
+    def judge_ffi_rej(self, calls, o):
+        """[(ok, expected, observed)] for one C-ABI sequence with refused calls in it (reply o of ffidrv/call.py, "partial" mode)"""
+        out = []
+        part = o.get("seq") if isinstance(o.get("seq"), list) else o.get("seq_partial")
+        if not isinstance(part, list) or ("seq" not in o and "crash" not in o):
+            return [(False, "the sequence runs (the child returns its replies, or is killed by the library in a refused call)", json.dumps(o)[:400])]
+        for i, (q, r_) in enumerate(zip(calls, part)):
+            if "rejected" in q:
+                continue
+            want = ref_scrypt(bytes.fromhex(q["pw"]), bytes.fromhex(q["salt"]), q["n"], q["r"], q["p"], q["dklen"]).hex()
+            out.append((r_.get("out") == want and r_.get("guard_ok") is True,
+                        "call %d has valid parameters: the C function writes the RFC 7914 value %s, guards intact, whatever was called before" % (i, want[:128]),
+                        json.dumps(r_)[:400]))
+        if "crash" in o and len(part) < len(calls):
+            k = len(part)
+            out.append(("rejected" in calls[k], "the process may end only in a call whose parameters are outside the domain; call %d has valid parameters "
+                                                 "(calls before it: %s)" % (k, ["rejected" if "rejected" in q else "valid" for q in calls[:k]]),
+                        json.dumps(dict((a, b) for a, b in o.items() if a != "seq_partial"))[:400]))
+        return out
+
+    def recheck_scrypt_after_rejected(self, inp, rs):
+        ok = True
+        for line, r_ in zip(inp["lines"], rs):
+            pw, salt, n, r, p, dk = self.rej_parse(line)
+            if self.in_domain(n, r, p, dk):
+                ok = ok and r_.get("outcome") == "ok" and unhex(r_["out"]) == ref_scrypt(pw, salt, n, r, p, dk)
+        return ok
 
     def selftest(self, ctx):
         ok = True
